@@ -427,6 +427,10 @@ def worker(job):
     import warnings
     warnings.simplefilter('ignore')
     part = common.Part()
+    if 'replay' in job and job['replay'].get('relay'):
+        from checks import c16c_relay
+        c16c_relay.run_case(job['replay'], part)
+        return part.dump()
     if 'replay' in job and job['replay'].get('crawl'):
         from checks import c16b_crawl
         c16b_crawl.run_case(job['replay'], part)
@@ -438,6 +442,9 @@ def worker(job):
     from checks import c16b_crawl
     for n in range(job.get('n_crawls', 0)):
         c16b_crawl.run_case(c16b_crawl.gen_case(rng), part)
+    from checks import c16c_relay
+    for n in range(job.get('n_relay', 0)):
+        c16c_relay.run_case(c16c_relay.gen_case(rng), part)
     for n in range(job['n']):
         case = gen_case(rng)
         run_case(case, part)
@@ -462,14 +469,17 @@ def main():
         total = int((200000 if check.thorough else 25600) * check.scale)
         nj = check.jobs * (4 if check.thorough else 1)
         crawls = int((4000 if check.thorough else 160) * check.scale)
-        jobs = [{'seed': check.seed * 1000003 + i, 'n': max(1, total // nj), 'n_crawls': max(1, crawls // nj)} for i in range(nj)]
+        relays = int((40000 if check.thorough else 1600) * check.scale)
+        jobs = [{'seed': check.seed * 1000003 + i, 'n': max(1, total // nj), 'n_crawls': max(1, crawls // nj), 'n_relay': max(1, relays // nj)}
+                for i in range(nj)]
         res = par.run_jobs(target, jobs, check.jobs, timeout=7200 if check.thorough else 900)
     for r in res:
         if '_error' in r:
             check.note_inconclusive('worker: ' + r['_error'] + ' ' + r.get('_stderr', '')[-400:])
         else:
             check.merge(r)
-    check.finish(required_counters=() if check.args.replay else ('requests_captured', 'host_field_correct', 'crawls_with_requests_to_several_origins'))
+    check.finish(required_counters=() if check.args.replay else ('requests_captured', 'host_field_correct', 'crawls_with_requests_to_several_origins',
+                                                                              'relayed_requests_reached_their_own_origin_whole'))
 
 
 if __name__ == '__main__':
